@@ -44,6 +44,8 @@ class Run:
                     if outcome == "success":
                         run.ok_n += 1
                         tok = {"access_token": f"new{run.ok_n}", "token_type": "Bearer", "expires_in": 3600}
+                        if run.cfg.get("resp") == "no-expiry":
+                            tok.pop("expires_in")          # RFC 6749: expires_in is RECOMMENDED, not required
                         if run.cfg["grant"] == "refresh_rotating":
                             tok["refresh_token"] = f"r{run.ok_n}"
                         return httpx.Response(200, json=tok, request=request)
@@ -98,6 +100,9 @@ class Run:
         from authlib.integrations.httpx_client import AsyncOAuth2Client
         cfg = self.cfg
         token = {"access_token": "old0", "token_type": "Bearer", "expires_at": int(time.time()) - 10}
+        if cfg.get("clock") == "fraction":
+            # the clock stands in the last tenth of the second in which the token (less the client's 60 s leeway) expired
+            token["expires_at"] = int(time.time()) + 60
         kw = {}
         if cfg["grant"].startswith("refresh"):
             token["refresh_token"] = "r0"
@@ -142,9 +147,13 @@ class Run:
 def run_schedule(cfg, decisions):
     r = Run(cfg, decisions)
     loop = asyncio.new_event_loop()
+    real = time.time
+    if cfg.get("clock") == "fraction":
+        time.time = lambda: 2_000_000_000.9
     try:
         out = loop.run_until_complete(r.main())
     finally:
+        time.time = real
         loop.close()
     out["taken"] = r.taken
     return out
